@@ -85,6 +85,14 @@ def collect(h):
             raise h.Missing(f"{rel}: cannot locate the claim buildGenericPayload decodes into {target}")
         items.append((f"jwt_k_{role}_validate", "list N", _bytes(found[target]), rel + " buildGenericPayload"))
 
+    # NewJWTSigner: minimum secret length and the refusal of shorter secrets
+    relc = "pkg/itokensjwt/consts.go"
+    n = h.go_int(h.find(relc, r"^\s*SecretKeyLength\s*=\s*([0-9_]+)", "SecretKeyLength").group(1))
+    ctor = _body(h, rel, r"^func NewJWTSigner\(", "NewJWTSigner")
+    if not re.search(r"if len\(\w+\) < SecretKeyLength \{\s*\n\s*panic\(", ctor):
+        raise h.Missing(f"{rel}: NewJWTSigner no longer refuses secrets shorter than SecretKeyLength by a panic")
+    items.append(("jwt_secret_min_len", "N", str(n), relc + " SecretKeyLength; " + rel + " NewJWTSigner refuses shorter secrets"))
+
     rel2 = "pkg/itokens-payloads/impl.go"
     body = _body(h, rel2, r"^func \(at \*implIAppTokens\) ValidateToken\(", "implIAppTokens.ValidateToken")
     items.append(("jwt_app_bound", "bool",
